@@ -108,8 +108,59 @@ fn defaults_per_call(acc: &mut Acc) {
     }
 }
 
+/// An encode and a decode issued while the thread is being torn down (from the destructor of a client thread-local that
+/// was first touched before the thread's first use of the library): a call is a call, whenever it is made.
+fn calls_during_thread_teardown(acc: &mut Acc) {
+    use desert::BinaryCodec;
+    use std::cell::RefCell;
+    use std::sync::mpsc;
+    #[derive(BinaryCodec, Debug, PartialEq, Clone)]
+    #[evolution(FieldAdded("b", String::new()))]
+    struct Rec {
+        a: u32,
+        b: String,
+    }
+    struct FlushOnExit(RefCell<Option<mpsc::Sender<Result<(Vec<u8>, bool), String>>>>);
+    impl Drop for FlushOnExit {
+        fn drop(&mut self) {
+            if let Some(tx) = self.0.borrow_mut().take() {
+                let v = Rec { a: 7, b: "late".into() };
+                let r = std::panic::catch_unwind(|| {
+                    let bytes = desert::serialize_to_byte_vec(&v).map_err(|e| e.to_string())?;
+                    let back: Rec = desert::deserialize(&bytes).map_err(|e| e.to_string())?;
+                    Ok::<_, String>((bytes, back == Rec { a: 7, b: "late".into() }))
+                })
+                .unwrap_or_else(|_| Err("panicked".to_string()));
+                let _ = tx.send(r);
+            }
+        }
+    }
+    thread_local! {
+        static FLUSH: FlushOnExit = const { FlushOnExit(RefCell::new(None)) };
+    }
+    acc.case(Some(0x7EAD));
+    let (tx, rx) = mpsc::channel();
+    let early = std::thread::spawn(move || {
+        // touch the client's thread-local first, then use the library, then leave
+        FLUSH.with(|f| *f.0.borrow_mut() = Some(tx));
+        let v = Rec { a: 1, b: "early".into() };
+        desert::serialize_to_byte_vec(&v).map_err(|e| e.to_string())
+    })
+    .join();
+    let late = rx.recv_timeout(std::time::Duration::from_secs(30));
+    let reference = desert::serialize_to_byte_vec(&Rec { a: 7, b: "late".into() }).ok();
+    match (early, late) {
+        (Ok(Ok(_)), Ok(Ok((bytes, true)))) if Some(&bytes) == reference.as_ref() => acc.count("calls_during_thread_teardown_ok"),
+        other => acc.violation(
+            "C18|thread_teardown".to_string(),
+            J::obj().with("check", J::s("C18")).with("mode", J::s("call")).with("what", J::s("encode + decode of an evolved record from a thread-local destructor at thread exit")).with("got", J::s(format!("{other:?}").chars().take(300).collect::<String>())),
+        ),
+    }
+}
+
 pub fn c18(ctx: &mut Ctx, acc: &mut Acc) -> i32 {
     if ctx.shard == 0 {
+        calls_during_thread_teardown(acc);
         defaults_per_call(acc);
     }
     let mode = ctx.extra.get("mode").cloned().unwrap_or_else(|| "storm".to_string());
